@@ -10,8 +10,11 @@ Three parts, every run:
 2. kernels under sanitizers: the CURRENT source molli_xt/distance.cpp + _molli_xt.hpp of the working tree is compiled,
    unmodified, against a stand-in for the pybind11 names it uses (vmon/native/c19_pybind11_shim) into
    vmon/native/c19_harness.cpp, once with -fsanitize=address,undefined and once with -fsanitize=thread; the harness calls
-   every registered kernel by its exported name and compares with a long-double loop.  thorough: valgrind on the
-   interpreter driving the deployed .so.  (this file)
+   every registered kernel by its exported name and compares with a long-double loop.  Arguments are described on the
+   caller's side (logical values + memory layout: C, transposed, strided / reversed / windowed / broadcast axes, swapaxes)
+   and converted to the kernel's declared array type the way pybind11's type caster does (the stand-in records the flags
+   of every registered signature), so a kernel that receives a non-contiguous view and is not prepared for it is observed
+   as wrong values and/or an out-of-bounds read.  thorough: valgrind on the interpreter driving the deployed .so.  (this file)
 3. descriptors: rectangular_grid, nearest_atom_index, prune, aso, aeif against float64 references with the float32
    rounding bands excluded.  (vmon/models/c19_descriptors.py)
 
@@ -35,7 +38,10 @@ RULE = ("kernel cases: every exported cdist* name x shapes N,M in {0,1,2,7,64}+s
         "(f4,f8,f2,i4,i8,u1,>f4,>f8,mixed) x layouts (C,F,strided rows, strided last axis, transposed, negative stride, "
         "read-only, unaligned, broadcast, nested lists) x 5 value regimes; non-trivial = both arrays non-empty and at least "
         "one input non-contiguous or not of the kernel's native dtype; distinct by (name, shapes, dtypes, layouts, regime). "
-        "native cases: one per (registered name, width, shape, regime) in the C++ sweep. descriptor cases: seeded molecules "
+        "native cases: one per (registered name, width, shape, regime) in the C++ shape sweep plus one per (registered name, width, "
+        "layout of 1st argument, layout of 2nd argument, shape incl. 0 and 1 points, regime) in the C++ layout sweep "
+        "(11 layouts: c-contiguous, fortran-transposed, strided/reversed/broadcast last axis, strided/reversed/broadcast first axis, "
+        "column window, swapaxes-0-1, swapaxes-1-2). descriptor cases: seeded molecules "
         "(1..24 atoms, chain or cloud, offset up to 15 A) and ensembles (1..5 conformers, random weights and charges), "
         "grids from rectangular_grid (padding 0..2.5, spacing 0.45..2, float32/float64) plus hand-placed points; "
         "non-trivial = grid with >= 8 points having both occupied and unoccupied points; distinct by hash of coordinates and grid parameters")
@@ -48,8 +54,11 @@ ASSUMPTIONS = [
     "descriptor comparisons exclude grid points within 1e-4 A of a vdW sphere surface, of the nearest-atom cut-off or of a nearest-atom tie",
     "rectangular_grid: steps compared to the spacing with 5e-6 relative + 4 ulp of the coordinate magnitude; the point count may differ "
     "by one only where extent/spacing is within rounding (1e-5 + 8 ulp(coordinates)/spacing) of an integer",
-    "the stand-in pybind11 header models array_t as a C-contiguous exact-size malloc buffer without bounds checks (as unchecked<N>() is); "
-    "conversion of Python arguments is exercised only in part 1, against the deployed binary",
+    "the stand-in pybind11 header models array_t<T, Flags> as shape + byte strides over an exact-size malloc buffer, unchecked<N>() "
+    "indexing through the strides without bounds checks, and the call boundary for arguments that already have the kernel's dtype "
+    "(PyArray_FromAny semantics: C-/Fortran-ordered copy only when the kernel's array type carries c_style/f_style and the view is not "
+    "contiguous in numpy's sense, else the caller's buffer and strides are passed through); dtype conversion and overload resolution of "
+    "Python arguments are exercised only in part 1, against the deployed binary",
     "a change to distance.cpp is seen by part 2 immediately but by parts 1 and 3 only after the extension is rebuilt",
 ]
 EXHAUSTIVE = False
@@ -63,14 +72,19 @@ SAN_FLAGS = {
     "tsan": ["-fsanitize=thread", "-pthread"],
 }
 COMMON_FLAGS = ["-std=c++17", "-O1", "-g", "-fno-omit-frame-pointer"]
+NATIVE_LAYOUTS = ("c-contiguous", "fortran-transposed", "strided-last-axis", "reversed-last-axis", "strided-first-axis",
+                  "reversed-first-axis", "column-window", "broadcast-first-axis", "broadcast-last-axis", "swapaxes-0-1", "swapaxes-1-2")
+ARRAY_FLAGS = {1: "c_style", 2: "f_style", 16: "forcecast"}
 CRASH_SIGNALS = {4: "SIGILL", 6: "SIGABRT", 7: "SIGBUS", 8: "SIGFPE", 11: "SIGSEGV"}
 
 
 def REQUIRED(tier):
     k = 1 if tier == "quick" else 10
     req = {
-        "native.asan-ubsan.kernel-calls": 4000 * k, "native.asan-ubsan.elements-compared": 10 ** 6 * k,
-        "native.asan-ubsan.registered-kernels": 8, "native.tsan.concurrent-calls": 300, "native.tsan.registered-kernels": 8,
+        "native.asan-ubsan.kernel-calls": 40000 * k, "native.asan-ubsan.elements-compared": 4 * 10 ** 6 * k,
+        "native.asan-ubsan.registered-kernels": 8,
+        "native.asan-ubsan.noncontiguous-argument-calls": 25000 * k, "native.asan-ubsan.noncontiguous-elements-compared": 10 ** 6 * k,
+        "native.asan-ubsan.arguments-converted-at-call-boundary": 60000 * k, "native.tsan.concurrent-calls": 300, "native.tsan.registered-kernels": 8,
         "kernel.cases": 250 * k, "kernel.elements-compared": 10 ** 5 * k, "kernel.noncontiguous-or-foreign-dtype-cases": 100 * k,
         "kernel.wrong-ndim.raised": 40, "kernel.concurrent.calls": 90, "kernel.inputs-unmodified": 250 * k,
         "grid.checked": 60 * k, "nearest.geometry.checked": 60 * k, "nearest.ensemble.checked": 60 * k,
@@ -79,6 +93,8 @@ def REQUIRED(tier):
         "aso.checked": 60 * k, "aeif.checked": 60 * k, "aso.points.compared": 5000, "aeif.points.compared": 5000,
         "aso.points.occupied": 500, "aeif.weighted.checked": 20 * k, "aso.weighted.checked": 20 * k,
     }
+    for lay in NATIVE_LAYOUTS:       # every memory layout must have reached the kernels (swapaxes: first argument of cdist32* only)
+        req[f"native.asan-ubsan.layout.{lay}"] = (1500 if lay.startswith("swapaxes") else 7000) * k
     if tier == "thorough":
         req["valgrind.kernel-calls"] = 200
     return req
@@ -204,6 +220,43 @@ def classify_sanitizer(err: str):
     return tool, kind, (fm.group(1) if fm else None)
 
 
+def flag_names(word) -> str:
+    w = int(word)
+    return "|".join(v for k, v in ARRAY_FLAGS.items() if w & k) + (f"|{w & ~19}" if w & ~19 else "") or "0"
+
+
+def report_value_lines(ctx, case, out, val, reg3):
+    """violations from the MISMATCH/MMLAYOUT/SHAPE/INPUTCHANGED/NOGIL/RAISED lines of the reference run"""
+    flags = {(n, t): f"returns {flag_names(fr)}; takes {flag_names(fa)}, {flag_names(fb)}" for n, t, fr, fa, fb in reg3 if fr != ""}
+    pairs = {}          # name -> list of (width, layout of 1st argument, layout of 2nd argument) with mismatching elements
+    for m in re.finditer(r"^MMLAYOUT (\S+) ([fd]) (\S+) (\S+)$", out, re.M):
+        pairs.setdefault(m.group(1), []).append((m.group(2), m.group(3), m.group(4)))
+    counts = {m.group(1): int(m.group(2)) for m in re.finditer(r"^MMCOUNT (.+) (\d+)$", out, re.M)}
+    witness = {}
+    for m in re.finditer(r"^MISMATCH (\S+) ([fd]) (.*)$", out, re.M):
+        witness.setdefault(m.group(1), (m.group(2), m.group(3)[:500]))
+    for name in sorted(set(pairs) | set(witness)):
+        pl = pairs.get(name, [])
+        contiguous_too = not pl or any(a == b == "c-contiguous" for _, a, b in pl)
+        w, wit = witness.get(name, (pl[0][0] if pl else None, None))
+        detail = dict(width=w, witness=wit, mismatching_elements_all_names=val.get("NMISMATCH"),
+                      layout_pairs_affected=[f"{t}: {a} / {b}" + (f" ({counts[f'{name} {t} {a} {b}']} elements)" if f"{name} {t} {a} {b}" in counts else "")
+                                             for t, a, b in pl][:40],
+                      registered_array_flags={t: flags.get((name, t)) for t in "fd" if (name, t) in flags})
+        if contiguous_too:
+            ctx.violation(f"native:kernel-differs-from-long-double-reference:{name}", case=case, **detail)
+        else:       # right for C-contiguous arguments, wrong only for views with other strides
+            ctx.violation(f"native:kernel-wrong-for-noncontiguous-argument:{name}", case=case, **detail)
+    for key, pat in (("native:result-shape-wrong", r"^SHAPE (\S+) ([fd]) (.*)$"), ("native:kernel-modifies-input", r"^INPUTCHANGED (\S+) ([fd]) (.*)$"),
+                     ("native:array-allocated-while-gil-released", r"^NOGIL (\S+) ([fd])()$"),
+                     ("native:kernel-raised-on-valid-arguments", r"^RAISED (\S+) ([fd]) (.*)$")):
+        seen = set()
+        for m in re.finditer(pat, out, re.M):
+            if m.group(1) not in seen:
+                seen.add(m.group(1))
+                ctx.violation(f"{key}:{m.group(1)}", case=case, width=m.group(2), **({"witness": m.group(3)[:500]} if m.group(3) else {}))
+
+
 def run_native(spec, ctx):
     san = spec["san"]
     tag = "asan-ubsan" if san == "asan" else "tsan"
@@ -222,15 +275,21 @@ def run_native(spec, ctx):
         p = subprocess.run([str(exe), *args], capture_output=True, text=True, timeout=600, env=env)
         out, err = p.stdout, p.stderr
         ctx.count(f"native.{tag}.runs")
-        reg = re.findall(r"^REG (\S+) ([fd])$", out, re.M)
+        reg3 = re.findall(r"^REG (\S+) ([fd])(?: flags=(\d+),(\d+),(\d+))?$", out, re.M)
+        reg = [(n, t) for n, t, *_ in reg3]
+        flagwords = sorted({f"{n}:{t}: returns {flag_names(fr)}; takes {flag_names(fa)}, {flag_names(fb)}"
+                            for n, t, fr, fa, fb in reg3 if fr != ""})
         other = sorted(set(re.findall(r"^OTHER (\S+)$", out, re.M)))
-        val = {k: int(v) for k, v in re.findall(r"^(CALLS|ELEMS|NMISMATCH|NSHAPE|NINPUTCHANGED|THREADS|THREADMISMATCH) (\d+)$", out, re.M)}
+        val = {k: int(v) for k, v in re.findall(r"^(CALLS|ELEMS|NMISMATCH|NSHAPE|NINPUTCHANGED|NRAISED|THREADS|THREADMISMATCH|NONCONTIGCALLS|"
+                                                r"NONCONTIGELEMS|CASTCOPY|CASTPASS|PASSNONCONTIG) (\d+)$", out, re.M)}
+        layouts = {k: int(v) for k, v in re.findall(r"^LAYOUT (\S+) (\d+)$", out, re.M)}
         ctx.count(f"native.{tag}.registered-kernels", len(reg))
         ctx.note(f"part2_native_{san}", {
             "source_sha256": srcs, "harness_sha256": sha256_file(NATIVE / "c19_harness.cpp"),
             "shim_sha256": sha256_file(NATIVE / "c19_pybind11_shim" / "pybind11" / "pybind11.h"),
             "compile_cmd": " ".join(cmd), "run_args": args,
             "registered": sorted({f"{n}:{t}" for n, t in reg}), "unrecognised_registrations": other,
+            "registered_array_flags": flagwords,
             "exercises": "current source of the working tree (NOT the deployed .so)"})
         ctx.case(case, dkey=("native", san, spec.get("threads", 1), spec["hseed"], spec.get("rounds"), spec.get("reps")),
                  nontrivial=len(reg) > 0 and val.get("CALLS", 0) > 0,
@@ -246,6 +305,8 @@ def run_native(spec, ctx):
                 ctx.violation(f"native:name-registered-with-wrong-float-width:{n}", case=case, name=n, widths=sorted(ts))
             if m and not m.group(1) and ts != {"f", "d"}:
                 ctx.violation(f"native:overloaded-name-lacks-a-float-width:{n}", case=case, name=n, widths=sorted(ts))
+        if san == "asan":        # lines printed before a sanitizer abort count too (stdout of the harness is line-buffered)
+            report_value_lines(ctx, case, out, val, reg3)
         rep = classify_sanitizer(err)
         if rep is not None:
             tool, kind, frame = rep
@@ -262,18 +323,14 @@ def run_native(spec, ctx):
         ctx.count(f"native.{tag}.{'kernel-calls' if san == 'asan' else 'concurrent-calls'}", val.get("CALLS", 0))
         if san == "asan":
             ctx.count("native.asan-ubsan.elements-compared", val.get("ELEMS", 0))
-            names = set()
-            for m in re.finditer(r"^MISMATCH (\S+) ([fd]) (.*)$", out, re.M):
-                if m.group(1) not in names:
-                    names.add(m.group(1))
-                    ctx.violation(f"native:kernel-differs-from-long-double-reference:{m.group(1)}", case=case,
-                                  width=m.group(2), witness=m.group(3)[:500], mismatching_elements=val.get("NMISMATCH"))
-            for m in re.finditer(r"^SHAPE (\S+) ([fd]) (.*)$", out, re.M):
-                ctx.violation(f"native:result-shape-wrong:{m.group(1)}", case=case, width=m.group(2), witness=m.group(3))
-            for m in re.finditer(r"^INPUTCHANGED (\S+) ([fd]) (.*)$", out, re.M):
-                ctx.violation(f"native:kernel-modifies-input:{m.group(1)}", case=case, width=m.group(2), witness=m.group(3))
-            for m in re.finditer(r"^NOGIL (\S+) ([fd])$", out, re.M):
-                ctx.violation(f"native:array-allocated-while-gil-released:{m.group(1)}", case=case, width=m.group(2))
+            ctx.count("native.asan-ubsan.noncontiguous-argument-calls", val.get("NONCONTIGCALLS", 0))
+            ctx.count("native.asan-ubsan.noncontiguous-elements-compared", val.get("NONCONTIGELEMS", 0))
+            ctx.count("native.asan-ubsan.arguments-converted-at-call-boundary", val.get("CASTCOPY", 0) + val.get("CASTPASS", 0))
+            ctx.count("native.asan-ubsan.arguments-copied-to-contiguous-by-cast", val.get("CASTCOPY", 0))
+            ctx.count("native.asan-ubsan.arguments-passed-through-by-cast", val.get("CASTPASS", 0))
+            ctx.count("native.asan-ubsan.noncontiguous-arguments-reaching-a-kernel", val.get("PASSNONCONTIG", 0))
+            for lay, n in layouts.items():
+                ctx.count(f"native.asan-ubsan.layout.{lay}", n)
         else:
             ctx.count("native.tsan.threads", val.get("THREADS", 0))
             if val.get("THREADMISMATCH", 0):
@@ -389,6 +446,7 @@ LEVEL_TEXT = ("Held on the executions produced: the deployed kernels agree with 
               "layout and under 8 concurrent callers; the current kernel source runs clean under ASan+UBSan+LSan and TSan while matching "
               "a long-double reference for every registered name; the grid descriptors agree with float64 definitions outside the "
               "float32 rounding bands. Not a proof: reach is that of the sweeps and generators.")
-LEVEL_NOTE = ("Trusted: numpy float64 arithmetic, the long-double loop and the pybind11 stand-in of the C++ harness (models array_t as a "
-              "C-contiguous buffer; pybind11's own argument conversion is exercised only through the deployed binary), clang-14 "
+LEVEL_NOTE = ("Trusted: numpy float64 arithmetic, the long-double loop and the pybind11 stand-in of the C++ harness (models array_t as shape + strides "
+              "over an exact-size buffer and the contiguity part of pybind11's argument conversion; dtype conversion and overload resolution "
+              "are exercised only through the deployed binary), clang-14 "
               "sanitizer runtimes, valgrind. Parts 1/3 see the deployed .so, part 2 the working-tree source; hashes of both are in the evidence.")
